@@ -6,6 +6,25 @@ def rel(budget, shards=NC, **kw):
     return dict(engine="native-rel", shards=shards, budget=budget, **kw)
 
 META = {
+    "C04": dict(
+        level="exploration",
+        technique="runtime monitoring: index-coded source frames with poison outside the slice, real Box<dyn Sound> from StaticSoundData::into_sound driven with MockInfoBuilder; independent transport + Hermite oracle; local successor/seek-landing trace monitor for commands",
+        design_ref="DESIGN.md §3 C04",
+        rule=("(1) Exhaustive for total length 0..5 (quick) / 0..7 (thorough): every slice, start position 0..len+1, loop region start<end<=len or none, reverse on/off, rates {1,-1,0.5,2,1.5,0.37,-0.6}, chunk sizes {1,3,len+2}, device/sound rate pairs; "
+              "(2) random lengths up to 1e5 with random slices, loops (incl. loop end == length, start inside/after the loop), rates, rate pairs; (3) long sounds at rate 1 with seek_to/seek_by/set_loop_region at random callback boundaries. "
+              "Oracles: bit-exact index sequence at |rate|*sound_rate*dt == 1; 4-point Hermite of the model sequence at the f64-accumulated position otherwise (8e-6 relative); any sample >= 2.5e5 is an out-of-slice read; Stopped not before the last frame was heard and reported by the callback containing sequence index last+4; "
+              "after commands every consecutive heard pair obeys the loop successor rule, seeks land within one frame of the request once the 4-frame window has refilled, reported position within one frame of the heard frame. "
+              "A case is distinct and non-trivial when its expected index sequence (first 64) x rate x chunk class x rate-pair class is new and non-empty."),
+        exhaustive_quick=True,
+        exhaustive_thorough=True,
+        domain="valid slices (start<=end<=frames), loop regions with start<end<=len; degenerate regions belong to C01; excluded while listed as known finding: reverse with start position >= length",
+        assumptions=["exhaustive:true refers to part (1), the enumeration of all small cases up to the stated length bound; parts (2),(3) are sampled",
+                     "index codes are exact in f32 up to 2^24", "reverse playback measures the start position from the end (kira's documented test behaviour)"],
+        quick=[rel(30)],
+        thorough=[rel(900)],
+        level_text="Complete enumeration of all small static-sound configurations up to a length bound against an independent transport/interpolator oracle, plus random large cases and command histories under a local trace monitor. Exploration: lengths beyond the bound are sampled.",
+        level_note="Trusts the harness transport model (written from the property text) and the Hermite reference; MockInfoBuilder info; position/seek checks allow the 4-frame look-ahead window the property mentions.",
+    ),
     "C06": dict(
         level="exploration",
         technique="runtime monitoring: trace-specification monitor over kira::Parameter / tweener modulator driven with MockInfoBuilder, independent easing oracle; end-to-end gain envelopes through the renderer",
@@ -22,6 +41,22 @@ META = {
         thorough=[rel(600)],
         level_text="Online monitor over ~10^5 (quick) / 10^7 (thorough) generated tween histories of the real Parameter/Tweener code with an independent oracle; exploration of an unbounded input space, not a proof.",
         level_note="Trusts the harness reference easing implementation and the MockInfoBuilder-provided clock info as a faithful stand-in for real clocks (C05 covers the real ones).",
+    ),
+    "C13": dict(
+        level="exploration",
+        technique="runtime monitoring: metamorphic relations between runs of fresh Box<dyn Effect> instances (dry identity, silence, finiteness, exact homogeneity, noise-calibrated superposition, partition independence)",
+        design_ref="DESIGN.md §3 C13",
+        rule=("Random effect specifications over all 8 built-in effects (delay with 0-2 nested feedback effects), parameters drawn from documented ranges plus their edges (mix -0.5/0/1/1.5, resonance 0/1, cutoff 0/1 Hz/Nyquist/2xNyquist, Q 0/0.01/20, gain +-24 dB, -60/-80 dB, zero attack/release), "
+              "8 sample rates 8k..192k, internal buffer sizes 1..1024, 8 signal classes (noise, impulses, step, DC, full-scale square, denormals, sine, burst then silence), random partitions into process calls. Each case checks one law on fresh instances built through the public EffectBuilder::build: "
+              "dry identity (bit-exact), silence->silence (exact zeros), finite output, superposition+scaling for linear effects (tolerance = the instance's measured f32 rounding-noise floor; E(-2x) == -2E(x) exactly), partition independence (<= 1e-6). "
+              "A case is distinct and non-trivial when (effect kind, law, sample rate, signal class, coarse parameter cell) is new and the input is non-zero (except the silence law)."),
+        domain="D0 U B of DESIGN.md 2.3; not generated because they diverge by construction: feedback-loop gain > 0 dB (delay feedback x nested effect gain bound), expander ratios < 0.25, expanders inside feedback loops",
+        assumptions=["effects are driven as the mixer drives them: init(sr, ibs) once, then on_start_processing + process on slices <= ibs with MockInfoBuilder info",
+                     "superposition tolerance is calibrated per instance from E(s*x)/s - E(x) (s = 1+2^-7+2^-13) with a 64x margin; gross non-homogeneity (> 5 %) is itself reported"],
+        quick=[rel(35)],
+        thorough=[rel(900)],
+        level_text="Metamorphic oracles over ~4x10^5 (quick) / ~10^7 (thorough) generated (effect, parameters, signal, partition) cases of the real effect code; exploration of an unbounded space.",
+        level_note="Trusts the harness signal generators and that MockInfoBuilder info equals what effects see in the mixer for fixed parameters.",
     ),
     "C19": dict(
         level="exploration",
